@@ -179,6 +179,10 @@ func (k Keeper) AddDeposit(ctx sdk.Context, receiverAddr, senderAddr sdk.AccAddr
 			// refresh stream data, since deposits and total streamed may have changed
 			// after claim stream call
 			stream, _ = k.GetStream(ctx, receiverAddr, senderAddr)
+		} else {
+			// nothing flowed while the stream was empty: the new deposit is streamed from now,
+			// not from the time of the last claim
+			stream.LastOutflowTime = nowTime
 		}
 
 		// stream expired or new. Calculate from now
